@@ -195,6 +195,11 @@ def _chunk(args):
                     sa = sp.oracle.unit_size(a)
                     if a.factors != b.factors or not close(sa, (vp * su) ** n, tol * 4):
                         bad("power_wrong_scale", key, f"({pn}*{un})**{n} has size {float(sa)!r}, expected {float((vp * su) ** n)!r}", rp)
+                    # ... and through the library: stripping the prefix of a quantity in that unit
+                    law("strip power")
+                    sq = (2 * a).unprefixed()
+                    if sq.unit.prefix.base != 0 or not close(mag(sq.magnitude) * sp.oracle.unit_size(sq.unit), 2 * (vp * su) ** n, tol * 4):
+                        bad("power_wrong_scale", key, f"(2 ({pn}*{un})**{n}).unprefixed() = {sq}; expected SI value {float(2 * (vp * su) ** n)!r}", rp)
                     law("root")
                     try:
                         r = a.root(n)
